@@ -156,7 +156,7 @@ def ragged_entries_holding_zeros_are_still_values(ctx, n):
 # accepted for writing, but JaggedArray.__init__ recognises only ndarray / list / tuple / int / float / None and
 # silently skips every other entry: it is neither stored nor listed as unset, the collection reads back one entry
 # short and the later entries move up.  The entry kind "npscalar" joins the symbolic choice when this flag is False.
-KNOWN_DEFECT_numpy_scalar_entries_of_ragged_collections_are_dropped = True
+KNOWN_DEFECT_numpy_scalar_entries_of_ragged_collections_are_dropped = False  # repaired in /repo (fix: a2e7ae9)
 
 DTYPES = ["int8", "int16", "int32", "int64", "uint8", "uint16", "uint32", "uint64", "float32", "float64", "bool"]
 EKINDS = ["none", "empty", "v1", "v3", "m12", "m21", "m30", "m03"] + \
